@@ -369,6 +369,10 @@ static int opt_work (
 			if (p->lp->basisid != -1)
 			{
 				p->lp->fbasisid = p->lp->basisid;
+				/* but the dual devex reference frame is indexed by column and
+				 * does not survive columns added since the last solve */
+				EGLPNUM_TYPENAME_EGlpNumFreeArray (p->pricing->ddinfo.norms);
+				ILL_IFFREE (p->pricing->ddinfo.refframe);
 			}
 			else
 			{
